@@ -536,7 +536,11 @@ func (w *world) runOps(ti int, ops []op) {
 				vec = append(vec, append([]byte(nil), content[prev:sp]...))
 				prev = sp
 			}
-			storage.PutVec(ctx, w.store, key, vec)
+			if err := storage.PutVec(ctx, w.store, key, vec); err != nil || len(p.pieces)%2 == 1 {
+				// the caller puts the same vector again: a retry after the error, or an idempotent re-put
+				w.st.Inc("probe.putvec_same_vector_again")
+				storage.PutVec(ctx, w.store, key, vec)
+			}
 		case 3:
 			has, err := w.store.Has(ctx, key)
 			w.s.Log.Add(fmt.Sprintf("RET t%d Has=%v err=%v", ti, has, err != nil))
@@ -595,6 +599,17 @@ func (w *world) describeK(k int, got []byte) string {
 
 // recover is the new process: Init on the same directory, then the post-crash invariants.
 func (w *world) recover(esc, shard, mode int) {
+	// an operation of the new process that never returns (it retries forever) ends the phase at the
+	// simulator's step cap: that is the store being unusable, not trouble of the harness
+	defer func() {
+		if r := recover(); r != nil {
+			if _, ok := r.(sim.LivelockOutside); ok {
+				w.o.Fail("restart-unusable", "an operation of the new process never returns", "after the run (mode %d) a new process on the same directory started an operation that made %d file-system calls without ever returning (the last: %s)", mode, w.d.NCalls(), w.lastCalls(4))
+				return
+			}
+			panic(r)
+		}
+	}()
 	ctx := context.Background()
 	o := w.o
 	// directory scan first (before the new process writes anything): which
@@ -808,3 +823,16 @@ func (w *world) opCtx() context.Context {
 
 // shardFlat is a user-defined sharding function: no shard directories at all.
 func shardFlat(key string, shards *[]string) { *shards = append(*shards, key) }
+
+// lastCalls renders the last n file-system calls.
+func (w *world) lastCalls(n int) string {
+	tr := w.d.Trace
+	if len(tr) > n {
+		tr = tr[len(tr)-n:]
+	}
+	var parts []string
+	for _, c := range tr {
+		parts = append(parts, c.Op+" "+c.Path+" "+c.Err)
+	}
+	return strings.Join(parts, "; ")
+}
